@@ -55,7 +55,9 @@ JudgeLocParse(e, o) ==
     LET r == ParseLoc(e.in) IN
     IF ~OutputOK(e.out.k) THEN Bad("outcome-" \o e.out.k, <<"C01">>, o)
     ELSE IF e.out.k = "ok" THEN
-        IF r.zone = "reject" THEN Bad("loc-accepts-ill-formed", <<"C03">>, o)
+        (* an ill-formed input that is accepted is a C03 matter; if what is then printed is not a canonical    *)
+        (* well-formed identifier either, C04 is violated as well (whatever the value came from)               *)
+        IF r.zone = "reject" THEN Bad("loc-accepts-ill-formed", IF StrictCanonicalLoc(e.ser) THEN <<"C03">> ELSE <<"C03", "C04">>, o)
         ELSE IF r.zone \in {"accept", "either", "other"} /\ e.st # r.val THEN Bad("loc-value-" \o r.zone, <<"C03">>, o)
         ELSE IF ~LocValueOK(e.st) THEN Bad("loc-value-ill-formed", <<"C04", "C03">>, o)
         (* a library that supports other extensions prints them too: text not judged *)
